@@ -59,25 +59,26 @@ type GhostField struct {
 }
 
 type Contracts struct {
-	Funcs       map[string]*FuncContract
-	Specs       map[string]*SpecDef
-	Lemmas      []*Lemma
-	Callbacks   map[string]*FuncContract
-	Ghosts      []GhostField
-	Guards      map[string][]string // mutex field -> guarded fields
-	Confined    []ConfinedDecl
-	SharedTypes []string
-	OwnedTypes  []string
-	gspec       *GuardSpec
-	Kinds       *KindSpec
-	Atomic      map[string]bool
-	CloseOnly   map[string]bool // Struct.field channels on which nothing is ever sent: a receive succeeds only once the channel is closed
-	Immutable   map[string]bool
-	Consts      map[string]*CExpr
-	Monitors    map[string]*Clause // "Struct.mutexField" -> invariant over self
-	Ctors       map[string]bool    // functions allowed to assign immutable fields
-	Axioms      []*Lemma
-	File        string
+	Funcs        map[string]*FuncContract
+	Specs        map[string]*SpecDef
+	Lemmas       []*Lemma
+	Callbacks    map[string]*FuncContract
+	Ghosts       []GhostField
+	Guards       map[string][]string // mutex field -> guarded fields
+	Confined     []ConfinedDecl
+	SharedTypes  []string
+	OwnedTypes   []string
+	gspec        *GuardSpec
+	Kinds        *KindSpec
+	Atomic       map[string]bool
+	SoleConsumer map[string]string // Struct.field channel -> the one function that receives from it
+	CloseOnly    map[string]bool   // Struct.field channels on which nothing is ever sent: a receive succeeds only once the channel is closed
+	Immutable    map[string]bool
+	Consts       map[string]*CExpr
+	Monitors     map[string]*Clause // "Struct.mutexField" -> invariant over self
+	Ctors        map[string]bool    // functions allowed to assign immutable fields
+	Axioms       []*Lemma
+	File         string
 }
 
 var (
@@ -101,13 +102,13 @@ type ConfinedDecl struct {
 var topKeywords = map[string]bool{
 	"confined": true, "shared": true, "owned": true, "kind": true, "kindfunc": true, "kindok": true,
 	"func": true, "pred": true, "spec": true, "lemma": true, "callback": true, "ghost": true,
-	"guard": true, "atomic": true, "closeonly": true, "immutable": true, "const": true, "end": true, "axiom": true,
+	"guard": true, "atomic": true, "closeonly": true, "soleconsumer": true, "immutable": true, "const": true, "end": true, "axiom": true,
 	"monitor": true, "constructor": true,
 }
 
 func newContracts() *Contracts {
 	return &Contracts{Funcs: map[string]*FuncContract{}, Specs: map[string]*SpecDef{}, Callbacks: map[string]*FuncContract{},
-		Guards: map[string][]string{}, Atomic: map[string]bool{}, CloseOnly: map[string]bool{}, Immutable: map[string]bool{}, Consts: map[string]*CExpr{},
+		Guards: map[string][]string{}, Atomic: map[string]bool{}, CloseOnly: map[string]bool{}, SoleConsumer: map[string]string{}, Immutable: map[string]bool{}, Consts: map[string]*CExpr{},
 		Monitors: map[string]*Clause{}, Ctors: map[string]bool{}}
 }
 
@@ -283,6 +284,15 @@ func loadContractsInto(c *Contracts, path string) (*Contracts, error) {
 		case "closeonly":
 			for _, f := range strings.Fields(rest) {
 				c.CloseOnly[f] = true
+			}
+			cur = nil
+		case "soleconsumer":
+			k := strings.Index(rest, ":")
+			if k < 0 {
+				return nil, fail("soleconsumer Func : Struct.chanField ...")
+			}
+			for _, f := range strings.Fields(rest[k+1:]) {
+				c.SoleConsumer[f] = strings.TrimSpace(rest[:k])
 			}
 			cur = nil
 		case "confined":
